@@ -1,7 +1,12 @@
 import Mieru.Proofs.Tamper
+import Mieru.Proofs.TamperKey
 import Mieru.Proofs.TamperPacket
+import Mieru.Proofs.TamperE2E
+import Mieru.Props.C02
 import Mieru.Props.C17
 import Mieru.Gen.Consts
+import Mieru.Gen.Tamper
+import Mieru.Gen.C04Tcp
 /-!
 # C04 — tampering with bytes on the wire never changes what the application reads
 
@@ -23,12 +28,27 @@ they talk about is the `Mieru.StreamWire` receiver of C01.
   is a contiguous run of the sender's segments, and after the in-order check of `Session.inputData`
   (repo commit "fix: reject out-of-sequence data segments on the stream transport") the application
   reads a prefix of the data — under the hypothesis `DomSepT` that no payload plaintext parses as a
-  metadata block. Without that check the run `segs.drop 1` was delivered as it stood (regression
+  metadata block. WITHOUT it the statement is false, for the model (`tcp_payload_as_metadata_counterexample`)
+  and for the real endpoints (known finding `C04/tcp/payload-opened-as-metadata`). The honest set is the
+  key's WHOLE sealing history — both directions, every connection of the user — in
+  `tcp_tamper_key_history` / `tcp_tamper_session_prefix` / `tcp_aligned_reflection_splice` (named
+  hypothesis `NonceRangesDisjoint`; direction test, session dispatch, in-order check and the underlay's
+  guards modelled in Model/TamperKey.lean and tied to the source by `stream_session_layer_is_the_code`);
+  low-entropy segments are instances (`Seg.wfT`, `tcp_tamper_low_entropy`). Without that check the run `segs.drop 1` was delivered as it stood (regression
   `example` at the end; found by the campaign as `C04/tcp/initial-nonce-advanced-stream-prefix-removed`).
 * Packet transport. `udp_tamper_genuine_plaintexts`: the metadata and payload plaintexts of an accepted
   datagram were both sealed by the honest sender under the datagram's nonce. `udp_tamper_genuine`:
-  under `DomSep` the accepted (metadata, payload) pair is exactly the pair of ONE genuine datagram, so
-  tampering reduces to the drop / duplicate / reorder network of C02. The full-strength statement
+  under `DomSep` the accepted (metadata, payload) pair is exactly the pair of ONE genuine datagram.
+  `udp_modified_datagram_discarded`: a datagram that is not byte-identical to a genuine one outside the
+  CONTENT of its padding is rejected ("discarded as if lost"; `udp_padding_content_invisible` is the
+  stated exception). `udp_tamper_step` / `udp_tamper_end_to_end`: the parser composed with the session
+  dispatch of the packet underlay, the direction test of `Session.input` (`direction_filter_is_the_codes`,
+  `udp_reflected_or_foreign_ignored`) and the C02 receiver `Arq.recv`: for EVERY sequence of
+  attacker-chosen datagrams each one is nothing or the `dupData`+`recvData` steps of a genuine message,
+  the application reads a PREFIX of what the sender wrote, and the stream can still complete (C02
+  `udp_delivery_is_prefix`, `udp_can_complete`); `udp_tamper_history_accepted` is the same for C02's
+  acceptor, which the driver op `c04-udp-seq` runs on the datagrams a real endpoint was handed.
+  All of these assume `DomSep`; the full-strength statement
 
       theorem udp_tamper_full : Ideal → Fresh → parseD … b = some (m, p) → ∃ d ∈ G, m = d.md ∧ p = d.payload
 
@@ -38,6 +58,9 @@ they talk about is the `Mieru.StreamWire` receiver of C01.
   32-byte payload) are accepted and deliver the 32 metadata bytes as application data. `DomSep` has
   two clauses for that reason. Both witnesses are replayed on the real endpoints on every run
   (known findings `C04/udp/meta-payload-swap-shared-nonce`, `C04/udp/meta-copied-over-payload-shared-nonce`).
+  So for real traffic the end-to-end statement is conditional in exactly one place: "no payload of this
+  key is 32 bytes long or parses as a metadata block"; everything else (`IdealD`, `Fresh`, `WfD`, `BdLen`)
+  is the crypto idealisation or a fact about the honest sender.
 * Low entropy. `le_decode_then_open`: the canonical-padding check precedes the AEAD open and the tag
   is carried unmodified; an accepted wire body is one of the two canonical encodings of a genuine
   ciphertext (Props/C17 `le_canonical`).
@@ -59,9 +82,12 @@ theorem receiver_is_streamwire (A : Aead) (M : MetaCodec) (fuel : Nat) (r : Rx) 
 
 /-- For ANY input whatsoever, in any chunking: under the ideal AEAD, a receiver that starts at the
     sender's nonce emits a prefix of the (metadata, payload) sequence the sender sealed — the i-th
-    open uses the nonce the sender used for exactly its i-th seal. -/
+    open uses the nonce the sender used for exactly its i-th seal. Honest segments need only be
+    `Seg.wfT` ("the metadata announces a payload iff there is one", representable fields): low-entropy
+    segments, whose `payloadLen` is the ENCODED body length, are instances (`Seg.wf` of C01 implies
+    `Seg.wfT`: `Seg.wf.toT`). -/
 theorem tcp_tamper_prefix (openF : Nat → Bytes → Option Bytes) (M : MetaCodec) (c : Nat) (segs : List Seg)
-    (hI : ∀ n ct p, openF n ct = some p → honest M c segs n p) (hw : ∀ s ∈ segs, s.wf M)
+    (hI : ∀ n ct p, openF n ct = some p → honest M c segs n p) (hw : ∀ s ∈ segs, s.wfT M)
     (fuel : Nat) (chunks : List Bytes) :
     ∃ j, j ≤ segs.length ∧
       (chunks.foldl (feedF openF M fuel) ⟨c, [], [], false⟩).out = (segs.take j).map (fun s => (s.md, s.payload)) := by
@@ -69,10 +95,13 @@ theorem tcp_tamper_prefix (openF : Nat → Bytes → Option Bytes) (M : MetaCode
     induction chunks with
     | nil => intro r; simp [feedF]
     | cons x xs ih => intro r; simp only [List.foldl_cons, List.flatten_cons, ih]; simp [feedF, List.foldl_append]
-  rw [hfold]
-  obtain ⟨j, hj, hout, _⟩ := feedF_pref M openF c segs hI hw fuel ⟨c, [], [], false⟩ chunks.flatten
-    ⟨0, by omega, by simp, fun _ => by simp [ctr]⟩
-  exact ⟨j, hj, hout⟩
+  rw [hfold, feedF_eq_G]
+  obtain ⟨j, _, hj, hout, _⟩ := feedG_win M openF (fun _ => openF) c segs
+    (fun n ct p _ _ h => hI n ct p h) (fun _ n w p _ _ h => hI n w p h) hw 0 fuel ⟨c, [], [], false⟩ chunks.flatten
+    ⟨0, Nat.le_refl _, by omega, by simp, fun _ => by simp [ctr]⟩
+  refine ⟨j, hj, ?_⟩
+  rw [hout, List.drop_zero]
+  rfl
 
 /-- The first failure is terminal: a dead receiver stays dead and never emits anything again. -/
 theorem tcp_first_failure_terminal (openF : Nat → Bytes → Option Bytes) (M : MetaCodec) (fuel : Nat) (r : Rx)
@@ -100,7 +129,7 @@ def DomSepT (M : MetaCodec) (segs : List Seg) : Prop := ∀ s ∈ segs, s.payloa
     its in-order check (segments of the session are numbered 0, 1, 2, …) the application reads a
     prefix of the payloads that were sent. -/
 theorem tcp_tamper_any_nonce (openF : Nat → Bytes → Option Bytes) (M : MetaCodec) (c : Nat) (segs : List Seg)
-    (hI : ∀ n ct p, openF n ct = some p → honest M c segs n p) (hw : ∀ s ∈ segs, s.wf M)
+    (hI : ∀ n ct p, openF n ct = some p → honest M c segs n p) (hw : ∀ s ∈ segs, s.wfT M)
     (hdom : DomSepT M segs) (seqOf : Md → Nat) (hseq : ∀ i (hi : i < segs.length), seqOf (segs[i]).md = i)
     (c' fuel : Nat) (bs : Bytes) :
     ∃ k, inOrderRead seqOf 0 (feedF openF M fuel ⟨c', [], [], false⟩ bs).out = (segs.take k).map (·.payload) := by
@@ -111,9 +140,10 @@ theorem tcp_tamper_any_nonce (openF : Nat → Bytes → Option Bytes) (M : MetaC
     exact hseq i hi
   by_cases ha : ∃ j0, j0 ≤ segs.length ∧ c' = ctr c (segs.take j0)
   · obtain ⟨j0, hj0, hc'⟩ := ha
-    obtain ⟨j, _, _, hout, _⟩ := feedF_win M openF c segs hI hw j0 fuel ⟨c', [], [], false⟩ bs
+    obtain ⟨j, _, _, hout, _⟩ := feedG_win M openF (fun _ => openF) c segs
+      (fun n ct p _ _ h => hI n ct p h) (fun _ n w p _ _ h => hI n w p h) hw j0 fuel ⟨c', [], [], false⟩ bs
       ⟨j0, Nat.le_refl _, hj0, by simp, fun _ => hc'⟩
-    rw [hout]
+    rw [feedF_eq_G, hout]
     obtain ⟨k, hk⟩ := inOrderRead_window seqOf (segs.map evOf) hseq' j0 j
     refine ⟨k, ?_⟩
     have e1 : List.map evOf (List.drop j0 (List.take j segs)) = List.drop j0 (List.take j (List.map evOf segs)) := by
@@ -127,25 +157,159 @@ theorem tcp_tamper_any_nonce (openF : Nat → Bytes → Option Bytes) (M : MetaC
     rw [this]
     exact ⟨0, by simp [inOrderRead]⟩
 
-/-! ## Packet transport -/
+/-! ### The key's whole sealing history (both directions, every connection of the user)
 
-/-- the ideal AEAD relative to the honest sealing history of the genuine datagrams `G` -/
-def IdealD (openF : Bytes → Bytes → Option Bytes) (sealF : Bytes → Bytes → Bytes) (M : PCodec) (G : List Dgram) : Prop :=
-  ∀ n ct p, openF n ct = some p → honestD M G n p ∧ ct = sealF n p
+`honest M c segs` above is ONE direction of ONE connection. The same key seals the reverse direction
+(`t.send = t.block.Clone()`) and every other connection of the user, and the receiver's nonce is the
+attacker's choice, so a receiver can be ALIGNED to any of those streams (the reverse direction
+reflected, another connection spliced in from its first byte). The honest set is therefore a family `K`
+of streams (`Tamper.Stream`: nonce base, sealed by a client or by a server, segments); nonces are the
+24-byte big-endian values on the wire read as naturals. What separates the streams is the NAMED
+hypothesis `NonceRangesDisjoint K` (bases are independent random 24-byte values, `newNonce`); what keeps
+a foreign stream from being delivered is the session layer, modelled in `Model/TamperKey.lean`:
+`underlayCut` (first-segment validation of a server underlay, open request on a client, open response
+on a server), `sessionRead` (dispatch by session id, a server session exists from its open request
+on, the direction test at the top of `Session.input`, the in-order check of `inputData`, close).
+`appRead ids isClient sid out` is what the reader of session `sid` gets when the parser emitted `out` —
+on a MULTIPLEXED connection: the per-session filter is part of the statement.
 
-/-- genuine datagrams are well formed: the metadata announces the payload's length, is representable,
-    and has payload length zero exactly when there is no payload -/
-def WfD (M : PCodec) (G : List Dgram) : Prop :=
-  ∀ d ∈ G, d.md.plainLen = d.payload.length ∧ M.ok d.md = true ∧ (d.md.payloadLen = 0 ↔ d.payload = [])
+The receiver is `feedG`: the payload slot is opened by `openP m` (for types 10/11 the low-entropy
+decode precedes the AEAD open: `lePayOpen`, corollary `tcp_tamper_low_entropy`); `feedF openF M` is the
+instance `feedG openF (fun _ => openF) M` (`feedF_eq_G`). -/
 
-/-- fresh nonces: no two genuine datagrams share one -/
-def Fresh (G : List Dgram) : Prop := ∀ d1 ∈ G, ∀ d2 ∈ G, d1.nonce = d2.nonce → d1 = d2
+/-- For ANY starting nonce and ANY input, the reader of session `sid` on a client (`isClient = true`) or
+    server connection reads nothing, or a PREFIX of the data-bearing payloads of session `sid` in ONE
+    stream `st` of the key's history that was sealed by the OTHER role — never anything sealed by its own
+    side (reflection), never a non-prefix. -/
+theorem tcp_tamper_key_history (openF : Nat → Bytes → Option Bytes) (openP : Md → Nat → Bytes → Option Bytes)
+    (M : MetaCodec) (ids : Md → Ids) (K : List Stream)
+    (hI : ∀ n ct p, openF n ct = some p → honestK M K n p)
+    (hIP : ∀ m n w p, openP m n w = some p → honestK M K n p)
+    (hd : NonceRangesDisjoint K) (hw : ∀ st ∈ K, ∀ s ∈ st.segs, s.wfT M) (hdom : DomSepK M K)
+    (isClient : Bool) (sid : Nat) (hdir : DirWf ids K) (hseq : SeqWf ids sid K)
+    (c' fuel : Nat) (bs : Bytes) :
+    appRead ids isClient sid (feedG openF openP M fuel ⟨c', [], [], false⟩ bs).out = [] ∨
+    ∃ st ∈ K, st.fromClient = !isClient ∧ ∃ k,
+      appRead ids isClient sid (feedG openF openP M fuel ⟨c', [], [], false⟩ bs).out
+        = ((dataOf ids sid st.segs).take k).map (·.payload) := by
+  rcases feedG_runK M openF openP K hI hIP hd hw hdom c' fuel bs with h0 | ⟨st, hst, j0, j, _, _, hout⟩
+  · left; rw [h0]; rfl
+  · obtain ⟨hrefl, k, hk⟩ := appRead_of_stream ids st (hdir st hst) isClient sid (hseq st hst)
+      (feedG openF openP M fuel ⟨c', [], [], false⟩ bs).out (by rw [hout]; exact sublist_run_mem st.segs j0 j)
+    by_cases hrole : st.fromClient = isClient
+    · left; exact hrefl hrole
+    · right
+      refine ⟨st, hst, ?_, k, hk⟩
+      cases h1 : st.fromClient <;> cases h2 : isClient <;> simp_all
 
-/-- Domain separation between the two plaintexts sealed under one datagram's nonce — what the wire
-    format would need and does not provide: (a) no payload plaintext parses as metadata, (b) no payload
-    plaintext has the length of a metadata block (its ciphertext could be replaced by the metadata's). -/
-def DomSep (M : PCodec) (G : List Dgram) : Prop :=
-  (∀ d ∈ G, d.payload ≠ [] → M.dec d.payload = none) ∧ (∀ d ∈ G, d.payload.length ≠ 32)
+/-- … hence, when session ids separate the connections (`hsid`: of the streams sealed by the other role
+    only `own` carries segments of session `sid` — session ids are random 32-bit values drawn per
+    session), the reader reads a prefix of what ITS peer session wrote on ITS connection. -/
+theorem tcp_tamper_session_prefix (openF : Nat → Bytes → Option Bytes) (openP : Md → Nat → Bytes → Option Bytes)
+    (M : MetaCodec) (ids : Md → Ids) (K : List Stream)
+    (hI : ∀ n ct p, openF n ct = some p → honestK M K n p)
+    (hIP : ∀ m n w p, openP m n w = some p → honestK M K n p)
+    (hd : NonceRangesDisjoint K) (hw : ∀ st ∈ K, ∀ s ∈ st.segs, s.wfT M) (hdom : DomSepK M K)
+    (isClient : Bool) (sid : Nat) (hdir : DirWf ids K) (hseq : SeqWf ids sid K)
+    (own : Stream) (hsid : ∀ st ∈ K, st.fromClient = !isClient → dataOf ids sid st.segs ≠ [] → st = own)
+    (c' fuel : Nat) (bs : Bytes) :
+    ∃ k, appRead ids isClient sid (feedG openF openP M fuel ⟨c', [], [], false⟩ bs).out
+        = ((dataOf ids sid own.segs).take k).map (·.payload) := by
+  rcases tcp_tamper_key_history openF openP M ids K hI hIP hd hw hdom isClient sid hdir hseq c' fuel bs with
+    h0 | ⟨st, hst, hrole, k, hk⟩
+  · exact ⟨0, by rw [h0]; simp⟩
+  · by_cases he : dataOf ids sid st.segs = []
+    · exact ⟨0, by rw [hk, he]; simp⟩
+    · rw [hsid st hst hrole he] at hk; exact ⟨k, hk⟩
+
+/-- ALIGNED reflection and splice, stated directly: a receiver whose starting nonce names a segment
+    boundary of stream `st` of the history delivers NOTHING to session `sid` if `st` was sealed by the
+    receiver's own side (reflection of its own direction, or of any connection's same direction), and
+    nothing if `st` carries no segment of session `sid` (another connection of the user spliced in);
+    in every case at most a prefix of session `sid`'s data in `st`. -/
+theorem tcp_aligned_reflection_splice (openF : Nat → Bytes → Option Bytes) (openP : Md → Nat → Bytes → Option Bytes)
+    (M : MetaCodec) (ids : Md → Ids) (K : List Stream)
+    (hI : ∀ n ct p, openF n ct = some p → honestK M K n p)
+    (hIP : ∀ m n w p, openP m n w = some p → honestK M K n p)
+    (hd : NonceRangesDisjoint K) (hw : ∀ st ∈ K, ∀ s ∈ st.segs, s.wfT M)
+    (isClient : Bool) (sid : Nat) (hdir : DirWf ids K) (hseq : SeqWf ids sid K)
+    (st : Stream) (hst : st ∈ K) (j0 : Nat) (hj0 : j0 ≤ st.segs.length) (fuel : Nat) (bs : Bytes) :
+    let read := appRead ids isClient sid
+      (feedG openF openP M fuel ⟨ctr st.c (st.segs.take j0), [], [], false⟩ bs).out
+    (st.fromClient = isClient → read = []) ∧ (dataOf ids sid st.segs = [] → read = []) ∧
+    ∃ k, read = ((dataOf ids sid st.segs).take k).map (·.payload) := by
+  intro read
+  obtain ⟨j, _, _, hout, _⟩ := feedG_win M openF openP st.c st.segs
+    (fun n ct p hlo hhi h => ranged_of_family M K hd st hst (hI n ct p h) hlo hhi)
+    (fun m n w p hlo hhi h => ranged_of_family M K hd st hst (hIP m n w p h) hlo hhi)
+    (hw st hst) j0 fuel ⟨ctr st.c (st.segs.take j0), [], [], false⟩ bs ⟨j0, Nat.le_refl _, hj0, by simp, fun _ => rfl⟩
+  obtain ⟨hrefl, k, hk⟩ := appRead_of_stream ids st (hdir st hst) isClient sid (hseq st hst)
+    (feedG openF openP M fuel ⟨ctr st.c (st.segs.take j0), [], [], false⟩ bs).out
+    (by rw [hout]; exact sublist_run_mem st.segs j0 j)
+  exact ⟨hrefl, fun he => by show appRead _ _ _ _ = []; rw [hk, he]; simp, k, hk⟩
+
+/-- Low-entropy traffic is an instance: with the payload opener of the stream transport (`lePayOpen`:
+    canonical-padding check of the encoded body, then the AEAD open of the decoded body and the
+    unmodified tag) the ideal AEAD alone gives the hypothesis on the payload slot. -/
+theorem tcp_tamper_low_entropy (openF : Nat → Bytes → Option Bytes) (leOf : Md → Option (Nat × Nat × Nat × Nat))
+    (M : MetaCodec) (ids : Md → Ids) (K : List Stream)
+    (hI : ∀ n ct p, openF n ct = some p → honestK M K n p)
+    (hd : NonceRangesDisjoint K) (hw : ∀ st ∈ K, ∀ s ∈ st.segs, s.wfT M) (hdom : DomSepK M K)
+    (isClient : Bool) (sid : Nat) (hdir : DirWf ids K) (hseq : SeqWf ids sid K)
+    (c' fuel : Nat) (bs : Bytes) :
+    appRead ids isClient sid (feedG openF (lePayOpen leOf openF) M fuel ⟨c', [], [], false⟩ bs).out = [] ∨
+    ∃ st ∈ K, st.fromClient = !isClient ∧ ∃ k,
+      appRead ids isClient sid (feedG openF (lePayOpen leOf openF) M fuel ⟨c', [], [], false⟩ bs).out
+        = ((dataOf ids sid st.segs).take k).map (·.payload) :=
+  tcp_tamper_key_history openF (lePayOpen leOf openF) M ids K hI
+    (fun m n w p h => lePayOpen_honest leOf openF (honestK M K) hI m n w p h) hd hw hdom isClient sid hdir hseq c' fuel bs
+
+/-- the protocol numbers of the direction test and of the dispatch are the ones the code compiles to -/
+theorem tamper_protocol_numbers :
+    Gen.openSessionRequest = 2 ∧ Gen.openSessionResponse = 3 ∧ Gen.closeSessionRequest = 4 ∧
+    Gen.closeSessionResponse = 5 ∧ Gen.dataClientToServer = 6 ∧ Gen.dataServerToClient = 7 ∧
+    Gen.ackClientToServer = 8 ∧ Gen.ackServerToClient = 9 ∧ Gen.dataClientToServerLowEntropy = 10 ∧
+    Gen.dataServerToClientLowEntropy = 11 := by decide
+
+/-- (T) The session layer of `Model/TamperKey.lean` is the code's, regenerated from the working tree by
+    tools/goextract/c04tcp.go on every run: `dirOK` is the direction test of `Session.input` for every
+    value of the protocol byte; on the stream transport a wrong direction returns an error (ends the
+    session); `inputData` takes open request / response and data; in its stream branch the in-order
+    check (with its error return) PRECEDES the counter increment and the hand-over to the application's
+    queue (`sessionRead` delivers nothing of a rejected segment); a client underlay refuses an open
+    request and a server underlay an open response (`underlayCut`); a server underlay validates its
+    first segment — open request, non-zero session id — before any dispatch. -/
+theorem stream_session_layer_is_the_code :
+    (∀ p : Fin 256, dirOK true p.val = true ↔ (p.val : Int) ∈ Gen.C04Tcp.inputDirClient) ∧
+    (∀ p : Fin 256, dirOK false p.val = true ↔ (p.val : Int) ∈ Gen.C04Tcp.inputDirServer) ∧
+    Gen.C04Tcp.inputWrongDirection =
+      ["if s.transportProtocol == common.PacketTransport { return nil }", "return stderror.ErrInvalidArgument"] ∧
+    Gen.C04Tcp.inputDataCondition =
+      "protocol == openSessionRequest || protocol == openSessionResponse || isDataProtocol(protocol)" ∧
+    Gen.C04Tcp.inputDataStreamOrder =
+      ["seq != streamNextRecv.Load() → return error", "streamNextRecv.Add(1)", "recvQueue.Insert"] ∧
+    Gen.C04Tcp.openRequestGuard = "if t.isClient { return stderror.ErrInvalidOperation }" ∧
+    Gen.C04Tcp.openResponseGuard = "if !t.isClient { return stderror.ErrInvalidOperation }" ∧
+    Gen.C04Tcp.eventLoopOrder = ["first segment: validateNewServerSessionSegment → return error", "dispatch"] ∧
+    Gen.C04Tcp.firstSegmentRejects =
+      ["seg == nil || seg.metadata == nil", "!ok || ss.Protocol() != openSessionRequest", "ss.sessionID == 0"] := by
+  refine ⟨by decide +kernel, by decide +kernel, ?_, ?_, ?_, ?_, ?_, ?_, ?_⟩ <;> decide
+
+/-! ## Packet transport
+
+The hypotheses are defined in `Mieru/Model/TamperUdp.lean` (so that the helper proofs can use them):
+
+    IdealD openF sealF M G := ∀ n ct p, openF n ct = some p → honestD M G n p ∧ ct = sealF n p
+    WfD M G    := ∀ d ∈ G, d.md.plainLen = d.payload.length ∧ M.ok d.md = true ∧ (d.md.payloadLen = 0 ↔ d.payload = [])
+    BdLen bd G := ∀ d ∈ G, ∀ w ct, w.length = d.md.payloadLen + 16 → bd d.md w = some ct → ct.length = d.md.plainLen + 16
+    Fresh G    := ∀ d1 ∈ G, ∀ d2 ∈ G, d1.nonce = d2.nonce → d1 = d2
+    DomSep M G := (∀ d ∈ G, d.payload ≠ [] → M.dec d.payload = none) ∧ (∀ d ∈ G, d.payload.length ≠ 32)
+
+`G` is the WHOLE sealing history of the key: every datagram of both directions and of every session of
+the user (one key serves them all). `DomSep` is what the wire format would need and does not provide
+— it is FALSE for real traffic as soon as a payload is 32 bytes long (`udp_meta_copy_counterexample`),
+so every theorem below that assumes it is conditional on "no 32-byte payload / no payload that parses as
+metadata"; `udp_tamper_genuine_plaintexts` is the unconditional part. -/
 
 /-- An accepted datagram's metadata and payload plaintexts were both sealed by the honest sender under
     the datagram's nonce (no domain separation needed). -/
@@ -162,34 +326,170 @@ theorem udp_tamper_genuine_plaintexts (openF : Bytes → Bytes → Option Bytes)
 
 /-- Under domain separation (and fresh nonces) an accepted datagram carries exactly the metadata and
     the payload of ONE genuine datagram: whatever the attacker did to the bytes, the receiver sees a
-    genuine datagram or nothing — the drop / duplicate / reorder network of C02. -/
+    genuine datagram or nothing — the drop / duplicate / reorder network of C02.
+    (`BdLen` replaces the former hypothesis `hbd`, which the identity `bd` did not satisfy.) -/
 theorem udp_tamper_genuine (openF : Bytes → Bytes → Option Bytes) (sealF : Bytes → Bytes → Bytes)
     (hlen : ∀ n p, (sealF n p).length = p.length + 16)
-    (M : PCodec) (bd : PMd → Bytes → Option Bytes) (hbd : ∀ m w ct, bd m w = some ct → ct.length = m.plainLen + 16)
-    (G : List Dgram) (hI : IdealD openF sealF M G) (hw : WfD M G) (hf : Fresh G) (hd : DomSep M G)
+    (M : PCodec) (bd : PMd → Bytes → Option Bytes)
+    (G : List Dgram) (hI : IdealD openF sealF M G) (hw : WfD M G) (hb : BdLen bd G) (hf : Fresh G) (hd : DomSep M G)
     (b : Bytes) (m : PMd) (p : Bytes) (h : parseD openF M bd b = some (m, p)) :
     ∃ d ∈ G, d.nonce = b.take 24 ∧ m = d.md ∧ p = d.payload := by
-  obtain ⟨mb, hmb, hdec, hpay⟩ := parseD_some openF M bd h
-  obtain ⟨⟨d, hdG, hdn, hcase⟩, _⟩ := hI _ _ _ hmb
-  obtain ⟨hpl, hok, hzero⟩ := hw d hdG
-  -- the metadata slot holds the genuine metadata of `d`
-  have hm : m = d.md := by
-    rcases hcase with he | ⟨hne, he⟩
-    · rw [he, M.dec_enc _ hok] at hdec; exact (Option.some.inj hdec).symm
-    · rw [he, hd.1 d hdG hne] at hdec; simp at hdec
-  refine ⟨d, hdG, hdn, hm, ?_⟩
-  rcases hpay with ⟨hz, hp⟩ | ⟨hnz, w, ct, hct, hp⟩
-  · rw [hp]; rw [hm] at hz; exact (hzero.mp hz).symm
-  · obtain ⟨⟨d2, hd2G, hd2n, hcase2⟩, hcteq⟩ := hI _ _ _ hp
-    have hsame : d2 = d := hf d2 hd2G d hdG (by rw [hd2n, hdn])
-    subst hsame
-    rcases hcase2 with he | ⟨_, he⟩
-    · -- the payload slot would hold the metadata's ciphertext: only possible for a 32-byte payload
-      exfalso
-      have h1 := hbd m w ct hct
-      rw [hcteq, hlen, he, M.enc_len, hm, hpl] at h1
-      exact hd.2 d2 hd2G (by omega)
-    · exact he
+  obtain ⟨d, hdG, hdn, hm, hp, _⟩ := parseD_genuine openF M bd sealF hlen G hI hw hb hf hd h
+  exact ⟨d, hdG, hdn, hm, hp⟩
+
+/-- the two `bd`s the code has satisfy `BdLen`: nothing (types 2..9, where the metadata's `payloadLen`
+    IS the plaintext length) and the low-entropy decode of the body with the tag carried along (types
+    10/11: `payloadLen` = encoded length, `plainLen` = extracted length; Props/C17 `le_canonical`) -/
+theorem bdLen_of_the_code (G : List Dgram) :
+    ((∀ d ∈ G, d.md.plainLen = d.md.payloadLen) → BdLen (fun _ w => some w) G) ∧
+    (∀ mode half rot : PMd → Nat,
+      BdLen (fun m w => (LowEntropy.decode (w.take m.payloadLen) m.plainLen (mode m) (half m) (rot m)).map
+                          (· ++ w.drop m.payloadLen)) G) := by
+  refine ⟨fun hpl d hd w ct hwl hbd => ?_, fun mode half rot d _ w ct hwl hbd => ?_⟩
+  · simp only [Option.some.injEq] at hbd
+    rw [← hbd, hwl, hpl d hd]
+  · simp only [Option.map_eq_some_iff] at hbd
+    obtain ⟨body, hdec, hct⟩ := hbd
+    obtain ⟨hl, _⟩ := C17.le_canonical _ _ _ _ _ _ hdec
+    rw [← hct]
+    simp only [List.length_append, List.length_drop, hl, hwl]
+    omega
+
+/-- "A modified datagram is discarded as if lost": under the same hypotheses an ACCEPTED datagram is, byte
+    for byte, a genuine datagram in which at most the CONTENT of the two paddings differs (their lengths
+    are authenticated) — so a datagram that is not of that form is rejected (`parseD … = none`), whatever
+    was altered, inserted, removed, truncated or spliced. Stated for payloads that travel as sealed
+    (types 2..9); for low-entropy bodies `parseD_genuine` gives the same with "the body decodes to the
+    genuine ciphertext" and `le_decode_then_open` says which two wire bodies do. -/
+theorem udp_modified_datagram_discarded (openF : Bytes → Bytes → Option Bytes) (sealF : Bytes → Bytes → Bytes)
+    (hlen : ∀ n p, (sealF n p).length = p.length + 16) (M : PCodec)
+    (G : List Dgram) (hI : IdealD openF sealF M G) (hw : WfD M G) (hb : BdLen (fun _ w => some w) G)
+    (hf : Fresh G) (hd : DomSep M G) (b : Bytes)
+    (hmod : ∀ d ∈ G, ∀ pad1 pad2 : Bytes, pad1.length = d.md.prefixLen → pad2.length = d.md.suffixLen →
+      b ≠ wireD sealF M d pad1 pad2) :
+    parseD openF M (fun _ w => some w) b = none := by
+  cases h : parseD openF M (fun _ w => some w) b with
+  | none => rfl
+  | some mp =>
+    obtain ⟨m, p⟩ := mp
+    obtain ⟨d, hdG, _, _, pad1, pad2, h1, h2, hbw⟩ := parseD_genuine_bytes openF M sealF hlen G hI hw hb hf hd h
+    exact absurd hbw (hmod d hdG pad1 pad2 h1 h2)
+
+/-- … and the exception is real and harmless: a genuine datagram with ANY padding content of the
+    authenticated lengths is accepted and yields the genuine metadata and payload (`openF` need only open
+    the two genuine ciphertexts). -/
+theorem udp_padding_content_invisible (openF : Bytes → Bytes → Option Bytes) (sealF : Bytes → Bytes → Bytes)
+    (hlen : ∀ n p, (sealF n p).length = p.length + 16) (M : PCodec) (d : Dgram)
+    (hn : d.nonce.length = 24) (hok : M.ok d.md = true) (hz : d.md.payloadLen = 0 ↔ d.payload = [])
+    (hpl : d.md.payloadLen = d.payload.length)
+    (ho1 : openF d.nonce (sealF d.nonce (M.enc d.md)) = some (M.enc d.md))
+    (ho2 : openF d.nonce (sealF d.nonce d.payload) = some d.payload)
+    (pad1 pad2 : Bytes) (h1 : pad1.length = d.md.prefixLen) (h2 : pad2.length = d.md.suffixLen) :
+    parseD openF M (fun _ w => some w) (wireD sealF M d pad1 pad2) = some (d.md, d.payload) :=
+  parseD_wireD openF M sealF hlen d hn hok hz hpl ho1 ho2 pad1 pad2 h1 h2
+
+/-- Structural tie (regenerated from session.go and the compiled constants): the direction filter of the
+    model is the first check of `Session.input`, and the branch taken at its end is `inputData` for open
+    request / open response / data, `inputAck` for acks, `inputClose` for close request / response. -/
+theorem direction_filter_is_the_codes :
+    Gen.Facts.sessionInputClientAccepts =
+      ["openSessionResponse", "dataServerToClient", "dataServerToClientLowEntropy", "ackServerToClient",
+       "closeSessionRequest", "closeSessionResponse"] ∧
+    [Gen.openSessionResponse, Gen.dataServerToClient, Gen.dataServerToClientLowEntropy, Gen.ackServerToClient,
+      Gen.closeSessionRequest, Gen.closeSessionResponse] = clientAccepts.map Int.ofNat ∧
+    Gen.Facts.sessionInputServerAccepts =
+      ["openSessionRequest", "dataClientToServer", "dataClientToServerLowEntropy", "ackClientToServer",
+       "closeSessionRequest", "closeSessionResponse"] ∧
+    [Gen.openSessionRequest, Gen.dataClientToServer, Gen.dataClientToServerLowEntropy, Gen.ackClientToServer,
+      Gen.closeSessionRequest, Gen.closeSessionResponse] = serverAccepts.map Int.ofNat ∧
+    Gen.Facts.sessionInputDispatch =
+      [("inputData", "protocol == openSessionRequest || protocol == openSessionResponse || isDataProtocol(protocol)"),
+       ("inputAck", "isAckProtocol(protocol)"),
+       ("inputClose", "protocol == closeSessionRequest || protocol == closeSessionResponse")] ∧
+    (List.range 16).map inputKind =
+      [.ignored, .ignored, .data, .data, .close, .close, .data, .data, .ack, .ack, .data, .data,
+       .ignored, .ignored, .ignored, .ignored] := by decide
+
+/-- Reflection and splicing from another session never reach the receive stream: a segment that travels
+    in the sender's own direction (one key serves both directions, so it authenticates) or that names
+    another session is not handed to `inputData`, whatever else it carries. -/
+theorem udp_reflected_or_foreign_ignored (c : RxCfg) (i : Ids) :
+    (i.sid ≠ c.sid → route c i = none) ∧
+    (c.isClient = true → i.proto ∈ [2, 6, 10, 8] → route c i = none) ∧
+    (c.isClient = false → i.proto ∈ [3, 7, 11, 9] → route c i = none) := by
+  refine ⟨fun h => ?_, fun hc hp => ?_, fun hc hp => ?_⟩
+  · simp [route, dispatched, h]
+  · simp only [List.mem_cons, List.mem_nil_iff, or_false] at hp
+    rcases hp with h | h | h | h <;> simp [route, validDirection, clientAccepts, hc, h]
+  · simp only [List.mem_cons, List.mem_nil_iff, or_false] at hp
+    rcases hp with h | h | h | h <;> simp [route, validDirection, serverAccepts, hc, h]
+
+/-- Each attacker-chosen datagram is either NOTHING for the receive stream or exactly the two C02 steps
+    `dupData`, `recvData` of a genuine data-bearing segment of this session and direction: tampering is
+    the drop / duplicate / reorder network of C02. `W` is C02's window, `hN` says that the network
+    (the attacker) holds a copy of every such genuine datagram. -/
+theorem udp_tamper_step {W : Nat} (openF : Bytes → Bytes → Option Bytes) (sealF : Bytes → Bytes → Bytes)
+    (hlen : ∀ n p, (sealF n p).length = p.length + 16) (M : PCodec) (bd : PMd → Bytes → Option Bytes)
+    (ids : PMd → Ids) (dig : Bytes → Nat) (c : RxCfg)
+    (G : List Dgram) (hI : IdealD openF sealF M G) (hw : WfD M G) (hb : BdLen bd G) (hf : Fresh G) (hd : DomSep M G)
+    (s : Arq.St)
+    (hN : ∀ d ∈ G, ∀ k, route c (ids d.md) = some k → (⟨k, dig d.payload⟩ : Arq.Msg) ∈ s.netData) (b : Bytes) :
+    rxStep openF M bd ids dig c s b = s ∨
+    ∃ d ∈ G, ∃ k, route c (ids d.md) = some k ∧ parseD openF M bd b = some (d.md, d.payload) ∧
+      Arq.Step W s { s with netData := ⟨k, dig d.payload⟩ :: s.netData } ∧
+      Arq.Step W { s with netData := ⟨k, dig d.payload⟩ :: s.netData } (rxStep openF M bd ids dig c s b) := by
+  rcases rxStep_cases openF M bd sealF ids dig c hlen G hI hw hb hf hd s b with h | ⟨d, hdG, k, hk, hp, h⟩
+  · exact Or.inl h
+  · refine Or.inr ⟨d, hdG, k, hk, hp, Arq.Step.dupData s _ (hN d hdG k hk), ?_⟩
+    rw [h]
+    exact Arq.Step.recvData _ _ (by simp)
+
+/-- THE PROPERTY'S SENTENCE FOR THE PACKET TRANSPORT. For EVERY sequence `bs` of attacker-chosen datagrams
+    (arbitrary byte strings, any number, any order) handed to the receiving endpoint from any reachable
+    state of the C02 model in which the network holds the genuine datagrams:
+    * the state stays reachable, the sender's data and the network's stock are untouched;
+    * what the application has been handed is a PREFIX of what the sender wrote — it never reads a byte
+      that differs from what was written at that position (C02 `udp_delivery_is_prefix`);
+    * and the stream can still complete: finitely many protocol steps deliver everything written
+      (C02 `udp_can_complete`) — tampering cannot wedge the receiver. -/
+theorem udp_tamper_end_to_end {W : Nat} (hW : 0 < W)
+    (openF : Bytes → Bytes → Option Bytes) (sealF : Bytes → Bytes → Bytes)
+    (hlen : ∀ n p, (sealF n p).length = p.length + 16) (M : PCodec) (bd : PMd → Bytes → Option Bytes)
+    (ids : PMd → Ids) (dig : Bytes → Nat) (c : RxCfg)
+    (G : List Dgram) (hI : IdealD openF sealF M G) (hw : WfD M G) (hb : BdLen bd G) (hf : Fresh G) (hd : DomSep M G)
+    (s : Arq.St) (hr : Arq.Reach W s)
+    (hN : ∀ d ∈ G, ∀ k, route c (ids d.md) = some k → (⟨k, dig d.payload⟩ : Arq.Msg) ∈ s.netData)
+    (bs : List Bytes) :
+    Arq.Reach W (rxRun openF M bd ids dig c s bs) ∧
+    (rxRun openF M bd ids dig c s bs).segs = s.segs ∧
+    (rxRun openF M bd ids dig c s bs).netData = s.netData ∧
+    (rxRun openF M bd ids dig c s bs).delivered = s.segs.take (rxRun openF M bd ids dig c s bs).nextRecv ∧
+    ∃ t, Arq.Steps W (rxRun openF M bd ids dig c s bs) t ∧ t.delivered = s.segs := by
+  obtain ⟨h1, h2, h3⟩ := rxRun_reach openF M bd sealF ids dig c hlen G hI hw hb hf hd bs s hr hN
+  refine ⟨h1, h3, h2, ?_, ?_⟩
+  · rw [← h3]; exact (C02.udp_delivery_is_prefix h1).1
+  · obtain ⟨t, ht, hdl⟩ := C02.udp_can_complete hW h1
+    exact ⟨t, ht, by rw [hdl, h3]⟩
+
+/-- The same, seen by the ACCEPTOR of C02 (the function the harness replays real histories through, and
+    that the driver op `c04-udp-seq` uses): if the sender's emission history contains the genuine
+    datagrams, every attacker-chosen datagram is nothing or one accepted `deliver` event, the acceptor's
+    invariant survives, and the delivered digests are a prefix of the sender's. With the injective digest
+    `bytesCode` equal digests are equal bytes. -/
+theorem udp_tamper_history_accepted
+    (openF : Bytes → Bytes → Option Bytes) (sealF : Bytes → Bytes → Bytes)
+    (hlen : ∀ n p, (sealF n p).length = p.length + 16) (M : PCodec) (bd : PMd → Bytes → Option Bytes)
+    (ids : PMd → Ids) (dig : Bytes → Nat) (c : RxCfg)
+    (G : List Dgram) (hI : IdealD openF sealF M G) (hw : WfD M G) (hb : BdLen bd G) (hf : Fresh G) (hd : DomSep M G)
+    (s : Arq.St) (hinv : Arq.Inv s)
+    (hS : ∀ d ∈ G, ∀ k, route c (ids d.md) = some k → (⟨k, dig d.payload⟩ : Arq.Msg) ∈ s.sent) :
+    (∀ b, rxStep openF M bd ids dig c s b = s ∨
+      ∃ k p, (⟨k, p⟩ : Arq.Msg) ∈ s.sent ∧ Arq.accept s (.deliver k p) = some (rxStep openF M bd ids dig c s b)) ∧
+    (∀ bs, (rxRun openF M bd ids dig c s bs).delivered = s.segs.take (rxRun openF M bd ids dig c s bs).nextRecv) ∧
+    (∀ a b : Bytes, bytesCode a = bytesCode b → a = b) := by
+  refine ⟨rxStep_accept openF M bd sealF ids dig c hlen G hI hw hb hf hd s hS, fun bs => ?_, bytesCode_injective⟩
+  obtain ⟨h1, _, h3⟩ := rxRun_inv openF M bd sealF ids dig c hlen G hI hw hb hf hd bs s hinv hS
+  rw [← h3]; exact h1.deliv
 
 /-- WITHOUT domain separation (the wire format as it is — one nonce for both AEAD operations of a
     datagram): if a 32-byte application chunk parses as metadata, the datagram
@@ -264,6 +564,142 @@ theorem le_noncanonical_rejected (openF : Bytes → Option Bytes) (wire : Bytes)
 theorem tamper_constants : Gen.nonceSize = 24 ∧ Gen.metadataLength = 32 ∧ Gen.aeadOverhead = 16 ∧
     Gen.packetNonHeaderPosition = 72 ∧ Gen.packetOverhead = 88 := by decide
 
+/-! ## Order of checks in the code (regenerated facts, tie T)
+
+`Mieru.Gen.Tamper` is regenerated by tools/goextract/tamperfacts.go from the working tree on every run: the
+six receive parsers as event traces in source order, the callers of the sub-parsers, and the protocol
+predicates of `Session.input` / `PacketUnderlay.RunEventLoop` EVALUATED for all 256 protocol values. -/
+
+/-- one event of a parser trace: kind, source text, "extent comes from a metadata length field", failure mode -/
+abbrev TEv := String × String × Bool × String
+
+def traceOf (fn : String) : List TEv := ((Gen.Tamper.parserTraces.find? (·.1 == fn)).map (·.2)).getD []
+
+def idxOf (t : List TEv) (kind : String) : Nat := t.findIdx (·.1 == kind)
+def lastIdxOf (t : List TEv) (kind : String) : Nat := t.length - 1 - t.reverse.findIdx (·.1 == kind)
+
+/-- (a) top-level parser: it has a metadata open; every open works on `encryptedMeta`; NOTHING up to the last
+    open has an extent that comes from a length field; Unmarshal and the calls of the sub-parsers (where all
+    length-driven reads / slices live) come after the last open -/
+def metaOpenFirst (t : List TEv) : Bool :=
+  t.any (·.1 == "open") &&
+  (t.filter (·.1 == "open")).all (fun e => e.2.1 ∈
+    ["t.serverInitRecvBlockCipherAndDecryptMetadata(encryptedMeta)", "t.recv.Decrypt(encryptedMeta)",
+     "u.block.Decrypt(encryptedMeta)", "u.tryDecryptExistingSession(encryptedMeta, addr)",
+     "u.serverTryDecryptMetadataForNewSession(encryptedMeta, source)"]) &&
+  (t.take (lastIdxOf t "open" + 1)).all (fun e => !e.2.2.1 && e.1 != "call" && e.1 != "unmarshal") &&
+  t.any (·.1 == "call") && t.any (·.1 == "unmarshal")
+
+/-- (b) a parser that handles types 10/11: the guard, then the decode of the wire body into the SAME variable,
+    then the AEAD open of that variable — in this order, and exactly one payload open -/
+def decodeBeforeOpen (t : List TEv) : Bool :=
+  (t.filter (·.1 == "open")).map (·.2.1) ∈
+    [["t.recv.Decrypt(encryptedPayload)"], ["blockCipher.DecryptWithNonce(encryptedPayload, nonce)"]] &&
+  (t.filter (fun e => e.1 == "decode" && e.2.1 == "decodeLowEntropyEncryptedPayload(encryptedPayload, das)")).length == 1 &&
+  lastIdxOf t "le-guard" < lastIdxOf t "decode" && lastIdxOf t "decode" < idxOf t "open"
+
+/-- (d) how every AEAD open of a parser fails -/
+def failures (t : List TEv) : List String := (t.filter (·.1 == "open")).map (·.2.2.2)
+
+def cmps (t : List TEv) : List String := (t.filter (·.1 == "cmp")).map (·.2.1)
+
+/-- The order of checks of the receive parsers of BOTH transports, read off the source:
+    (a) the AEAD open of the metadata precedes every length-driven read, allocation, slice and comparison
+        (they all sit in the sub-parsers, which are called from `readOneSegment` only, after the open);
+    (b) types 10/11: `decodeLowEntropyEncryptedPayload` (canonical-padding check) precedes the AEAD open, on the
+        same variable, in the only two parsers that handle them;
+    (c) the size comparisons of the packet parser, operators and operands;
+    (d) every failed open ends the attempt: an error return on the stream transport and in the packet
+        sub-parsers, `continue` (silent discard) in the packet reader — never a fall-through. -/
+theorem tamper_check_order :
+    metaOpenFirst (traceOf "StreamUnderlay.readOneSegment") = true ∧
+    metaOpenFirst (traceOf "PacketUnderlay.readOneSegment") = true ∧
+    Gen.Tamper.subParserCallers =
+      [("PacketUnderlay.readOneSegment", "parseSessionSegment"), ("PacketUnderlay.readOneSegment", "parseDataAckSegment"),
+       ("StreamUnderlay.readOneSegment", "readSessionSegment"), ("StreamUnderlay.readOneSegment", "readDataAckSegment")] ∧
+    decodeBeforeOpen (traceOf "StreamUnderlay.readDataAckSegment") = true ∧
+    decodeBeforeOpen (traceOf "PacketUnderlay.parseDataAckSegment") = true ∧
+    (Gen.Tamper.parserTraces.filter (fun f => f.2.any (fun e => e.1 == "le-guard" || e.1 == "decode"))).map (·.1) =
+      ["StreamUnderlay.readDataAckSegment", "PacketUnderlay.parseDataAckSegment"] ∧
+    cmps (traceOf "PacketUnderlay.readOneSegment") =
+      ["n < packetNonHeaderPosition", "len(decryptedMeta) != MetadataLength"] ∧
+    cmps (traceOf "PacketUnderlay.parseSessionSegment") =
+      ["ss.payloadLen > 0", "len(remaining) < int(ss.payloadLen)+cipher.DefaultOverhead",
+       "int(ss.payloadLen)+cipher.DefaultOverhead+int(ss.suffixLen) != len(remaining)", "int(ss.suffixLen) != len(remaining)"] ∧
+    cmps (traceOf "PacketUnderlay.parseDataAckSegment") =
+      ["das.prefixLen > 0", "int(das.prefixLen) > len(remaining)", "das.payloadLen > 0", "len(remaining) < wirePayloadLen",
+       "len(remaining) != wirePayloadLen+int(das.suffixLen)", "int(das.suffixLen) != len(remaining)"] ∧
+    failures (traceOf "StreamUnderlay.readOneSegment") = ["return-error", "return-error"] ∧
+    failures (traceOf "StreamUnderlay.readSessionSegment") = ["return-error"] ∧
+    failures (traceOf "StreamUnderlay.readDataAckSegment") = ["return-error"] ∧
+    failures (traceOf "PacketUnderlay.readOneSegment") = ["continue", "continue", "continue"] ∧
+    failures (traceOf "PacketUnderlay.parseSessionSegment") = ["return-error"] ∧
+    failures (traceOf "PacketUnderlay.parseDataAckSegment") = ["return-error"] := by decide
+
+/-- the packet sub-parsers in full: every slice is guarded by the comparison in front of it, the exact-size
+    test of a data/ack datagram precedes the open, the one of a session datagram follows it (same accept set:
+    `Tamper.parseD`'s docstring) -/
+theorem packet_parser_event_order :
+    (traceOf "PacketUnderlay.parseDataAckSegment").map (fun e => (e.1, e.2.1)) =
+      [("le-guard", "isLowEntropyProtocol(das.Protocol())"), ("decode", "validateLowEntropyDataAckMetadata(das)"),
+       ("cmp", "das.prefixLen > 0"), ("cmp", "int(das.prefixLen) > len(remaining)"), ("slice", "remaining[das.prefixLen:]"),
+       ("cmp", "das.payloadLen > 0"), ("cmp", "len(remaining) < wirePayloadLen"),
+       ("cmp", "len(remaining) != wirePayloadLen+int(das.suffixLen)"), ("slice", "remaining[:wirePayloadLen]"),
+       ("le-guard", "isLowEntropyProtocol(das.Protocol())"),
+       ("decode", "decodeLowEntropyEncryptedPayload(encryptedPayload, das)"),
+       ("open", "blockCipher.DecryptWithNonce(encryptedPayload, nonce)"),
+       ("cmp", "int(das.suffixLen) != len(remaining)")] ∧
+    (traceOf "PacketUnderlay.parseSessionSegment").map (fun e => (e.1, e.2.1)) =
+      [("cmp", "ss.payloadLen > 0"), ("cmp", "len(remaining) < int(ss.payloadLen)+cipher.DefaultOverhead"),
+       ("slice", "remaining[:ss.payloadLen+cipher.DefaultOverhead]"),
+       ("open", "blockCipher.DecryptWithNonce(encryptedPayload, nonce)"),
+       ("cmp", "int(ss.payloadLen)+cipher.DefaultOverhead+int(ss.suffixLen) != len(remaining)"),
+       ("cmp", "int(ss.suffixLen) != len(remaining)")] := by decide
+
+/-- what the regenerated dispatch facts say about protocol value `p` on a client (`ic`) / server endpoint:
+    `none` = the facts have a shape the model does not know -/
+def dispatchedByFacts (ic : Bool) (p : Nat) : Option Bool :=
+  match (Gen.Tamper.packetDispatch.find? (·.1 == p)).map (·.2) with
+  | none => some false
+  | some h =>
+    if h == "sessionMap.Load" then some true else
+    match (Gen.Tamper.packetHandlerRoleGuards.find? (·.1 == h)).map (·.2) with
+    | some g => if g == "NONE" then some true else if g == "u.isClient" then some (!ic)
+                else if g == "!u.isClient" then some ic else none
+    | none => none
+
+/-- The direction test, the final if-chain of `Session.input` and the dispatch of the packet underlay, for
+    ALL 256 protocol values and both roles: the model's `validDirection`, `inputKind`, `dispatched` are what the
+    source expressions evaluate to. (A whitelist that lets one more type through — e.g. both low-entropy data
+    types on either role — changes `Gen.Tamper.sessionInputAccepts…` and breaks this theorem at build time.) -/
+theorem session_input_direction_all_values :
+    (∀ p, p < 256 → validDirection true p = Gen.Tamper.sessionInputAcceptsClient.contains p) ∧
+    (∀ p, p < 256 → validDirection false p = Gen.Tamper.sessionInputAcceptsServer.contains p) ∧
+    (∀ p, p < 256 → inputKind p =
+      if Gen.Tamper.sessionInputData.contains p then .data else if Gen.Tamper.sessionInputAck.contains p then .ack
+      else if Gen.Tamper.sessionInputClose.contains p then .close else .ignored) ∧
+    (∀ p, p < 256 → dispatchedByFacts true p = some (dispatched true 7 ⟨p, 7, 0⟩) ∧
+                    dispatchedByFacts false p = some (dispatched false 7 ⟨p, 7, 0⟩)) ∧
+    -- client→server types never pass a client's test, server→client types never a server's: 6/7 AND 10/11
+    (∀ p ∈ [2, 6, 8, 10], validDirection true p = false) ∧ (∀ p ∈ [3, 7, 9, 11], validDirection false p = false) := by
+  decide +kernel
+
+/-- A unit that travels in the wrong direction (or names another session, or has a type the event loop does
+    not hand to this session) is NEVER delivered to the application, whatever it carries and even though it
+    authenticates: the receiver's state does not change. -/
+theorem udp_wrong_direction_never_delivered (openF : Bytes → Bytes → Option Bytes) (M : PCodec)
+    (bd : PMd → Bytes → Option Bytes) (ids : PMd → Ids) (dig : Bytes → Nat) (c : RxCfg) (s : Arq.St) (b : Bytes)
+    (m : PMd) (p : Bytes) (hp : parseD openF M bd b = some (m, p))
+    (hbad : validDirection c.isClient (ids m).proto = false ∨ (ids m).sid ≠ c.sid ∨
+            dispatched c.isClient c.sid (ids m) = false) :
+    rxStep openF M bd ids dig c s b = s := by
+  have hr : route c (ids m) = none := by
+    rcases hbad with h | h | h
+    · simp [route, h]
+    · simp [route, dispatched, h]
+    · simp [route, h]
+  simp [rxStep, rxApply, hp, hr]
+
 /-! ## Non-vacuity and regressions -/
 
 /-- a toy ideal AEAD for the stream theorems: opens exactly the sender's i-th seal under counter i -/
@@ -303,19 +739,344 @@ example :
     inOrderRead (fun m => m.tag) 0 [(tseg1.md, tseg1.payload), (tseg2.md, tseg2.payload)] = [[10, 20, 30], [40, 50]] := by
   decide +kernel
 
-/-- the hypotheses of `udp_tamper_genuine` are satisfiable together, by genuine traffic that is
-    accepted: a datagram with a 5-byte payload, parsed back to exactly its metadata and payload -/
+/-! ### Stream transport: the toy AEAD is ideal; the missing domain separation; the key family -/
+
+/-- the plaintexts the sender seals, in order: metadata, then the payload if there is one -/
+def ptsOf (M : MetaCodec) (segs : List Seg) : List Bytes :=
+  segs.flatMap (fun s => M.enc s.md :: (if s.payload = [] then [] else [s.payload]))
+
+theorem honest_of_pts (M : MetaCodec) (segs : List Seg) (c i : Nat) (p : Bytes)
+    (h : (ptsOf M segs)[i]? = some p) : honest M c segs (c + i) p := by
+  induction segs generalizing c i with
+  | nil => simp [ptsOf] at h
+  | cons s ss ih =>
+    unfold honest
+    by_cases hp : s.payload = []
+    · simp only [ptsOf, List.flatMap_cons, hp, if_true, List.cons_append, List.nil_append] at h
+      cases i with
+      | zero => left; simp at h; exact ⟨rfl, h.symm⟩
+      | succ i =>
+        right; right
+        simp only [hp, if_true]
+        have := ih (c + 1) i (by simpa [ptsOf] using h)
+        rw [show c + (i + 1) = c + 1 + i by omega]; exact this
+    · simp only [ptsOf, List.flatMap_cons, hp, if_false, List.cons_append, List.nil_append] at h
+      cases i with
+      | zero => left; simp at h; exact ⟨rfl, h.symm⟩
+      | succ i =>
+        cases i with
+        | zero => right; left; simp at h; exact ⟨hp, rfl, h.symm⟩
+        | succ i =>
+          right; right
+          simp only [hp, if_false]
+          have := ih (c + 2) i (by simpa [ptsOf] using h)
+          rw [show c + (i + 1 + 1) = c + 2 + i by omega]; exact this
+
+/-- the toy AEAD of the examples satisfies hypothesis `hI` of the stream theorems, for every codec,
+    counter and segment list -/
+theorem toyOpenT_ideal (M : MetaCodec) (c : Nat) (segs : List Seg) :
+    ∀ n ct p, toyOpenT M c segs n ct = some p → honest M c segs n p := by
+  intro n ct p h
+  unfold toyOpenT at h
+  simp only at h
+  split at h
+  · simp at h
+  · rename_i hge
+    split at h
+    · simp at h
+    · rename_i q hq
+      split at h
+      · have hpq : q = p := Option.some.inj h
+        subst hpq
+        have := honest_of_pts M segs c (n - c) q hq
+        rw [show c + (n - c) = n by omega] at this
+        exact this
+      · simp at h
+
+/-- (audit 2.6) an `openF` that satisfies `hI` AND opens the genuine stream, on segments that satisfy
+    `hw` (even the strong `Seg.wf`), `DomSepT` and `hseq` — every hypothesis of `tcp_tamper_prefix` /
+    `tcp_tamper_any_nonce` at a non-trivial point -/
+example :
+    (∀ n ct p, toyOpenT toyCodecT 5 [tseg1, tseg2] n ct = some p → honest toyCodecT 5 [tseg1, tseg2] n p) ∧
+    (∀ s ∈ [tseg1, tseg2], s.wf toyCodecT) ∧ (∀ s ∈ [tseg1, tseg2], s.wfT toyCodecT) ∧
+    DomSepT toyCodecT [tseg1, tseg2] ∧
+    (∀ i (hi : i < [tseg1, tseg2].length), ([tseg1, tseg2][i]).md.tag = i) ∧
+    (feedF (toyOpenT toyCodecT 5 [tseg1, tseg2]) toyCodecT 4 ⟨5, [], [], false⟩ twire).out
+      = [tseg1, tseg2].map (fun s => (s.md, s.payload)) := by
+  refine ⟨toyOpenT_ideal _ _ _, ?_, ?_, ?_, ?_, ?_⟩
+  · show ∀ s ∈ [tseg1, tseg2], s.md.payloadLen = s.payload.length ∧ s.md.prefixLen = s.pad1.length ∧
+      s.md.suffixLen = s.pad2.length ∧ toyCodecT.ok s.md = true
+    decide
+  · show ∀ s ∈ [tseg1, tseg2], (s.md.payloadLen = 0 ↔ s.payload = []) ∧ toyCodecT.ok s.md = true
+    decide
+  · show ∀ s ∈ [tseg1, tseg2], s.payload ≠ [] → toyCodecT.dec s.payload = none
+    decide
+  · decide
+  · decide +kernel
+
+/-- a 32-byte application chunk that IS a metadata block (payload length 32, sequence number 0) -/
+def cseg1 : Seg := ⟨⟨0, 32, 0, 0⟩, toyCodecT.enc ⟨0, 32, 0, 0⟩, [], []⟩
+def cseg2 : Seg := ⟨⟨0, 2, 0, 1⟩, [40, 50], [], []⟩
+def cwire : Bytes :=
+  tenc 5 (toyCodecT.enc cseg1.md) ++ tenc 6 cseg1.payload ++ tenc 7 (toyCodecT.enc cseg2.md) ++ tenc 8 cseg2.payload
+
+/-- WITHOUT `DomSepT` the stream transport has the UDP defect's sibling (audit 2.1): metadata and
+    payload of one segment are sealed under CONSECUTIVE nonces of one counter and the receiver's
+    starting nonce is the attacker's, so the receiver can be started on a PAYLOAD nonce. Every other
+    hypothesis of `tcp_tamper_any_nonce` holds (ideal AEAD `hI`, `hw`, `hseq`), the genuine wire `w`
+    decodes completely from the sender's counter — and a receiver started one counter later, fed `w`
+    without its first 48 bytes, opens the first segment's 32-byte payload as METADATA (payload length 32,
+    sequence number 0, so the in-order check passes) and hands the next segment's genuine METADATA
+    plaintext to the application: not a prefix of what was sent.
+
+    NO check of the real code stands in the way: the harness special `tcp-swap32` replays the witness on
+    the real endpoints on every run (client writes a 32-byte chunk that is an `openSessionRequest` block
+    with ANY session id — or, server→client, a data / open-response block for the client's session id with
+    sequence number 0 —, the stream is withheld, cut in front of that payload's ciphertext and restarted
+    with the clear-text nonce advanced onto its seal) and the receiving application reads the 32 bytes of
+    the NEXT segment's genuine metadata plaintext: both directions, first and later segments — known
+    finding `C04/tcp/payload-opened-as-metadata` (corpus/C04/tcp-payload-opened-as-metadata-{c2s,s2c}.json).
+    The replay cache does not fire (the 16-byte nonce prefix is seen once), the first-segment validation
+    passes (the forged block IS an open request), the timestamp is the chunk author's. Only two things
+    block it, neither in this model: a server configured with `userHintIsMandatory` (the advanced nonce no
+    longer ends in the user hint; not the default, and clients never check) and low-entropy traffic (the
+    payload's wire form is the ENCODED body, which does not open as a raw 48-byte ciphertext). -/
+theorem tcp_payload_as_metadata_counterexample :
+    ∃ (segs : List Seg) (w : Bytes) (read : List Bytes),
+      segs = [cseg1, cseg2] ∧
+      (∀ n ct p, toyOpenT toyCodecT 5 segs n ct = some p → honest toyCodecT 5 segs n p) ∧
+      (∀ s ∈ segs, s.wf toyCodecT) ∧
+      (∀ i (hi : i < segs.length), (segs[i]).md.tag = i) ∧
+      ¬ DomSepT toyCodecT segs ∧
+      (feedF (toyOpenT toyCodecT 5 segs) toyCodecT 4 ⟨5, [], [], false⟩ w).out = segs.map (fun s => (s.md, s.payload)) ∧
+      read = inOrderRead (fun m => m.tag) 0
+        (feedF (toyOpenT toyCodecT 5 segs) toyCodecT 4 ⟨6, [], [], false⟩ (w.drop 48)).out ∧
+      read = [toyCodecT.enc cseg2.md] ∧ ¬ ∃ k, read = (segs.take k).map (·.payload) := by
+  refine ⟨[cseg1, cseg2], cwire, [toyCodecT.enc cseg2.md], rfl, toyOpenT_ideal _ _ _, ?_, ?_, ?_, ?_, ?_, rfl, ?_⟩
+  · show ∀ s ∈ [cseg1, cseg2], s.md.payloadLen = s.payload.length ∧ s.md.prefixLen = s.pad1.length ∧
+      s.md.suffixLen = s.pad2.length ∧ toyCodecT.ok s.md = true
+    decide
+  · decide
+  · show ¬ ∀ s ∈ [cseg1, cseg2], s.payload ≠ [] → toyCodecT.dec s.payload = none
+    decide
+  · decide +kernel
+  · decide +kernel
+  · intro ⟨k, hk⟩
+    rcases k with _ | k
+    · simp at hk
+    · have h0 := congrArg List.head? hk
+      simp only [List.take_succ_cons, List.map_cons, List.head?_cons] at h0
+      revert h0; decide
+
+/-! The key family: a client's reader of session 1 against three streams of one key — its own
+    connection's server→client stream (multiplexed: session 2 interleaved), the reverse direction of its
+    connection, and the server→client stream of ANOTHER connection of the user (session 3). The toy
+    metadata packs (type, session id, sequence number) into `tag`. -/
+
+def toyIds (m : Md) : Ids := ⟨m.tag % 16, (m.tag / 16) % 4, m.tag / 64⟩
+def ktag (proto sid seq : Nat) : Nat := proto + 16 * sid + 64 * seq
+
+/-- own connection, server→client, nonce base 100: open response (session 1, seq 0), open response of
+    the multiplexed session 2, data (session 1, seq 1) -/
+def kown : Stream := ⟨100, false,
+  [⟨⟨0, 2, 0, ktag 3 1 0⟩, [1, 2], [], []⟩, ⟨⟨0, 1, 0, ktag 3 2 0⟩, [9], [], []⟩,
+   ⟨⟨0, 3, 0, ktag 7 1 1⟩, [3, 4, 5], [], []⟩]⟩
+/-- own connection, client→server (what this client sealed itself), nonce base 5 -/
+def krev : Stream := ⟨5, true,
+  [⟨⟨0, 2, 0, ktag 2 1 0⟩, [7, 7], [], []⟩, ⟨⟨0, 1, 0, ktag 6 1 1⟩, [8], [], []⟩, ⟨⟨0, 0, 0, ktag 4 1 2⟩, [], [], []⟩]⟩
+/-- another connection of the same user, server→client, session 3, nonce base 200 -/
+def koth : Stream := ⟨200, false, [⟨⟨0, 3, 0, ktag 3 3 0⟩, [6, 6, 6], [], []⟩, ⟨⟨0, 1, 0, ktag 7 3 1⟩, [5], [], []⟩]⟩
+def kfam : List Stream := [kown, krev, koth]
+
+/-- toy ideal AEAD for a family: opens exactly what some stream of the family sealed -/
+def toyOpenK (M : MetaCodec) (K : List Stream) (n : Nat) (ct : Bytes) : Option Bytes :=
+  K.findSome? (fun st => toyOpenT M st.c st.segs n ct)
+
+theorem toyOpenK_ideal (M : MetaCodec) (K : List Stream) :
+    ∀ n ct p, toyOpenK M K n ct = some p → honestK M K n p := by
+  intro n ct p h
+  induction K with
+  | nil => simp [toyOpenK] at h
+  | cons st K ih =>
+    unfold toyOpenK at h
+    rw [List.findSome?_cons] at h
+    split at h
+    · rename_i q hq
+      have hpq : q = p := Option.some.inj h
+      subst hpq
+      exact ⟨st, List.mem_cons_self, toyOpenT_ideal M st.c st.segs n ct q hq⟩
+    · obtain ⟨st', hst', hh⟩ := ih h
+      exact ⟨st', List.mem_cons_of_mem _ hst', hh⟩
+
+/-- the wire of a toy stream: every seal is `plaintext ++ 16 × (nonce mod 256)` -/
+def kwire (st : Stream) : Bytes :=
+  ((ptsOf toyCodecT st.segs).zipIdx.map (fun x => tenc (st.c + x.2) x.1)).flatten
+
+theorem kfam_disjoint : NonceRangesDisjoint kfam := by
+  have e1 : ctr kown.c kown.segs = 106 := by decide
+  have e2 : ctr krev.c krev.segs = 10 := by decide
+  have e3 : ctr koth.c koth.segs = 204 := by decide
+  have c1 : kown.c = 100 := rfl
+  have c2 : krev.c = 5 := rfl
+  have c3 : koth.c = 200 := rfl
+  intro s1 h1 s2 h2 n a b c d
+  simp only [kfam, List.mem_cons, List.not_mem_nil, or_false] at h1 h2
+  rcases h1 with rfl | rfl | rfl <;> rcases h2 with rfl | rfl | rfl <;> first | rfl | (exfalso; omega)
+
+/-- Every hypothesis of `tcp_tamper_key_history` holds for the family (session 1, client reader), and:
+    the genuine own stream is decoded completely and read completely (session 2's segment is filtered
+    out); a receiver ALIGNED to the reverse direction (reflection, its own nonce 5) emits those
+    segments — the AEAD accepts them — and the client's reader gets NOTHING (the server's reader, whose
+    stream it is, gets everything up to the close); aligned to the other connection (splice, nonce 200)
+    it emits that connection's segments and the reader gets nothing; started at the own stream's third
+    segment (nonce 104) the in-order check delivers nothing; the server's reader of session 1 gets
+    nothing from its own server→client stream reflected. -/
+example :
+    (∀ n ct p, toyOpenK toyCodecT kfam n ct = some p → honestK toyCodecT kfam n p) ∧
+    NonceRangesDisjoint kfam ∧ (∀ st ∈ kfam, ∀ s ∈ st.segs, s.wfT toyCodecT) ∧ DomSepK toyCodecT kfam ∧
+    DirWf toyIds kfam ∧ SeqWf toyIds 1 kfam ∧
+    (∀ st ∈ kfam, st.fromClient = !true → dataOf toyIds 1 st.segs ≠ [] → st = kown) ∧
+    (feedG (toyOpenK toyCodecT kfam) (fun _ => toyOpenK toyCodecT kfam) toyCodecT 6
+      ⟨100, [], [], false⟩ (kwire kown)).out = kown.segs.map (fun s => (s.md, s.payload)) ∧
+    appRead toyIds true 1 (kown.segs.map (fun s => (s.md, s.payload))) = [[1, 2], [3, 4, 5]] ∧
+    appRead toyIds false 1 (kown.segs.map (fun s => (s.md, s.payload))) = [] ∧
+    (feedG (toyOpenK toyCodecT kfam) (fun _ => toyOpenK toyCodecT kfam) toyCodecT 6
+      ⟨5, [], [], false⟩ (kwire krev)).out = krev.segs.map (fun s => (s.md, s.payload)) ∧
+    appRead toyIds true 1 (krev.segs.map (fun s => (s.md, s.payload))) = [] ∧
+    appRead toyIds false 1 (krev.segs.map (fun s => (s.md, s.payload))) = [[7, 7], [8]] ∧
+    (feedG (toyOpenK toyCodecT kfam) (fun _ => toyOpenK toyCodecT kfam) toyCodecT 6
+      ⟨200, [], [], false⟩ (kwire koth)).out = koth.segs.map (fun s => (s.md, s.payload)) ∧
+    appRead toyIds true 1 (koth.segs.map (fun s => (s.md, s.payload))) = [] ∧
+    (feedG (toyOpenK toyCodecT kfam) (fun _ => toyOpenK toyCodecT kfam) toyCodecT 6
+      ⟨104, [], [], false⟩ ((kwire kown).drop 131)).out = (kown.segs.drop 2).map (fun s => (s.md, s.payload)) ∧
+    appRead toyIds true 1 ((kown.segs.drop 2).map (fun s => (s.md, s.payload))) = [] := by
+  refine ⟨toyOpenK_ideal _ _, kfam_disjoint, ?_, ?_, ?_, ?_, ?_, ?_, ?_, ?_, ?_, ?_, ?_, ?_, ?_, ?_, ?_⟩
+  · show ∀ st ∈ kfam, ∀ s ∈ st.segs, (s.md.payloadLen = 0 ↔ s.payload = []) ∧ toyCodecT.ok s.md = true
+    decide
+  · show ∀ st ∈ kfam, ∀ s ∈ st.segs, s.payload ≠ [] → toyCodecT.dec s.payload = none
+    decide
+  · show ∀ st ∈ kfam, ∀ s ∈ st.segs, dirOK (!st.fromClient) (toyIds s.md).proto = true
+    decide
+  · show ∀ st ∈ kfam, ∀ i (h : i < (dataOf toyIds 1 st.segs).length), (toyIds ((dataOf toyIds 1 st.segs)[i]).md).seq = i
+    decide
+  · decide
+  all_goals decide +kernel
+
+/-- a low-entropy segment (type 11: `payloadLen` = 8 = length of the ENCODED body, payload plaintext of
+    4 bytes) is `Seg.wfT`, not `Seg.wf`; its wire form — the canonical encoding of the ciphertext body
+    followed by the unmodified tag — is opened by `feedG` with `lePayOpen`, and the SAME body with one
+    padding bit flipped is rejected before the AEAD is consulted (Props/C17 worked example) -/
+def leSeg : Seg := ⟨⟨0, 8, 0, ktag 11 1 0⟩, [0x12, 0x34, 0x56, 0x78], [], []⟩
+def leOfToy (m : Md) : Option (Nat × Nat × Nat × Nat) := if m.tag % 16 = 10 ∨ m.tag % 16 = 11 then some (4, 1, 0x0f0f0f0f, 0) else none
+def leWire (body : Bytes) : Bytes := tenc 100 (toyCodecT.enc leSeg.md) ++ body ++ List.replicate 16 101
+
+example :
+    leSeg.wfT toyCodecT ∧ ¬ leSeg.wf toyCodecT ∧
+    (feedG (toyOpenT toyCodecT 100 [leSeg]) (lePayOpen leOfToy (toyOpenT toyCodecT 100 [leSeg])) toyCodecT 3
+      ⟨100, [], [], false⟩ (leWire [0xf1, 0xf2, 0xf3, 0xf4, 0xf5, 0xf6, 0xf7, 0xf8])).out = [(leSeg.md, leSeg.payload)] ∧
+    (feedG (toyOpenT toyCodecT 100 [leSeg]) (lePayOpen leOfToy (toyOpenT toyCodecT 100 [leSeg])) toyCodecT 3
+      ⟨100, [], [], false⟩ (leWire [0x01, 0x02, 0x03, 0x04, 0x05, 0x06, 0x07, 0xf8])).dead = true ∧
+    -- the raw opener of `feedF` does not decode: the same genuine wire is rejected
+    (feedF (toyOpenT toyCodecT 100 [leSeg]) toyCodecT 3
+      ⟨100, [], [], false⟩ (leWire [0xf1, 0xf2, 0xf3, 0xf4, 0xf5, 0xf6, 0xf7, 0xf8])).out = [] := by
+  refine ⟨?_, ?_, ?_, ?_, ?_⟩
+  · show (leSeg.md.payloadLen = 0 ↔ leSeg.payload = []) ∧ toyCodecT.ok leSeg.md = true
+    decide
+  · show ¬ (leSeg.md.payloadLen = leSeg.payload.length ∧ leSeg.md.prefixLen = leSeg.pad1.length ∧
+      leSeg.md.suffixLen = leSeg.pad2.length ∧ toyCodecT.ok leSeg.md = true)
+    decide
+  all_goals decide +kernel
+
+/-- EVERY hypothesis of `udp_tamper_genuine` / `udp_modified_datagram_discarded` (`hlen`, `IdealD`, `WfD`,
+    `BdLen` for the `bd` that is used, `Fresh`, `DomSep`) is satisfiable together, by genuine traffic that
+    is accepted: a datagram with a 5-byte payload and changed padding content is parsed back to exactly its
+    metadata and payload; with one byte of the payload ciphertext changed, or one byte inserted into the
+    middle padding, or the last padding byte removed, it is rejected. -/
 example :
     let d : Dgram := ⟨List.replicate 24 2, ⟨1, 5, 2, 5, 3⟩, [1, 2, 3, 4, 5]⟩
-    IdealD (toyOpen toyPCodec [d]) toySeal toyPCodec [d] ∧ WfD toyPCodec [d] ∧ Fresh [d] ∧ DomSep toyPCodec [d] ∧
-    parseD (toyOpen toyPCodec [d]) toyPCodec (fun _ w => some w)
-      (d.nonce ++ toySeal d.nonce (toyPCodec.enc d.md) ++ [0xAA] ++ toySeal d.nonce d.payload ++ [0xBB, 0xCC])
-      = some (d.md, d.payload) := by
+    (∀ n p, (toySeal n p).length = p.length + 16) ∧
+    IdealD (toyOpen toyPCodec [d]) toySeal toyPCodec [d] ∧ WfD toyPCodec [d] ∧ BdLen (fun _ w => some w) [d] ∧
+    Fresh [d] ∧ DomSep toyPCodec [d] ∧
+    parseD (toyOpen toyPCodec [d]) toyPCodec (fun _ w => some w) (wireD toySeal toyPCodec d [0xAA] [0xBB, 0xCC])
+      = some (d.md, d.payload) ∧
+    parseD (toyOpen toyPCodec [d]) toyPCodec (fun _ w => some w) ((wireD toySeal toyPCodec d [0xAA] [0xBB, 0xCC]).set 74 9)
+      = none ∧
+    parseD (toyOpen toyPCodec [d]) toyPCodec (fun _ w => some w) (wireD toySeal toyPCodec d [0xAA, 0xAA] [0xBB, 0xCC])
+      = none ∧
+    parseD (toyOpen toyPCodec [d]) toyPCodec (fun _ w => some w) (wireD toySeal toyPCodec d [0xAA] [0xBB])
+      = none := by
   intro d
-  refine ⟨fun n ct p h => toy_ideal toyPCodec [d] n ct p h, ?_, ?_, ?_, ?_⟩
+  refine ⟨toySeal_len, fun n ct p h => toy_ideal toyPCodec [d] n ct p h, ?_, ?_, ?_, ?_, ?_, ?_, ?_, ?_⟩
   · intro d' hd'; simp only [List.mem_singleton] at hd'; subst hd'; decide
+  · exact (bdLen_of_the_code [d]).1 (by intro d' hd'; simp only [List.mem_singleton] at hd'; subst hd'; decide)
   · intro d1 h1 d2 h2 _; simp only [List.mem_singleton] at h1 h2; rw [h1, h2]
   · constructor <;> (intro d' hd'; simp only [List.mem_singleton] at hd'; subst hd'; decide)
+  · decide +kernel
+  · decide +kernel
+  · decide +kernel
+  · decide +kernel
+
+/-! ### Non-vacuity of the end-to-end statement
+
+A server-side session (id 1) receives client→server data segments (type 6; sequence number = the toy
+metadata's `tag`). The sender wrote three segments and transmitted all of them; the network holds them. -/
+
+def e2eIds (m : PMd) : Ids := ⟨6, 1, m.tag⟩
+def e2eCfg : RxCfg := ⟨false, 1⟩
+def e2eD (k : Nat) (p : Bytes) : Dgram := ⟨List.replicate 24 (UInt8.ofNat (k + 1)), ⟨1, p.length, 2, p.length, k⟩, p⟩
+def e2eG : List Dgram := [e2eD 0 [10, 11, 12], e2eD 1 [20, 21], e2eD 2 [30, 31, 32, 33]]
+def e2eMsgs : List Arq.Msg := e2eG.map fun d => ⟨d.md.tag, bytesCode d.payload⟩
+/-- the sender's state after three writes and three first transmissions, nothing received yet -/
+def e2eS0 : Arq.St :=
+  { Arq.init with segs := e2eG.map (fun d => bytesCode d.payload), qLo := 3, netData := e2eMsgs.reverse, sent := e2eMsgs.reverse }
+
+theorem e2e_reach : Arq.Reach 4 e2eS0 := by
+  have w1 := Arq.Reach.step (W := 4) Arq.Reach.init (Arq.Step.write Arq.init (bytesCode [10, 11, 12]))
+  have w2 := Arq.Reach.step w1 (Arq.Step.write _ (bytesCode [20, 21]))
+  have w3 := Arq.Reach.step w2 (Arq.Step.write _ (bytesCode [30, 31, 32, 33]))
+  have s1 := Arq.Reach.step w3 (Arq.Step.sendNew _ (bytesCode [10, 11, 12]) (by decide) (by decide))
+  have s2 := Arq.Reach.step s1 (Arq.Step.sendNew _ (bytesCode [20, 21]) (by decide) (by decide))
+  have s3 := Arq.Reach.step s2 (Arq.Step.sendNew _ (bytesCode [30, 31, 32, 33]) (by decide) (by decide))
+  exact s3
+
+/-- All hypotheses of `udp_tamper_end_to_end` hold for this traffic, and the attacker's sequence
+    [garbage, segment 2 with other padding content, segment 0 with a flipped tag bit, segment 1, segment 0,
+    a replay of segment 1, segment 2 truncated by one byte] makes the application read exactly the three
+    payloads, in order, once — the out-of-order copy of segment 2 that was accepted early is delivered when the
+    gap closes. Fed only the tampered copies, it reads nothing. -/
+example :
+    (∀ n p, (toySeal n p).length = p.length + 16) ∧
+    IdealD (toyOpen toyPCodec e2eG) toySeal toyPCodec e2eG ∧ WfD toyPCodec e2eG ∧ BdLen (fun _ w => some w) e2eG ∧
+    Fresh e2eG ∧ DomSep toyPCodec e2eG ∧ Arq.Reach 4 e2eS0 ∧
+    (∀ d ∈ e2eG, ∀ k, route e2eCfg (e2eIds d.md) = some k → (⟨k, bytesCode d.payload⟩ : Arq.Msg) ∈ e2eS0.netData) ∧
+    (rxRun (toyOpen toyPCodec e2eG) toyPCodec (fun _ w => some w) e2eIds bytesCode e2eCfg e2eS0
+      [List.replicate 100 7,
+       wireD toySeal toyPCodec (e2eD 2 [30, 31, 32, 33]) [9] [9, 9],
+       (wireD toySeal toyPCodec (e2eD 0 [10, 11, 12]) [0] [0, 0]).set 60 1,
+       wireD toySeal toyPCodec (e2eD 1 [20, 21]) [0] [0, 0],
+       wireD toySeal toyPCodec (e2eD 0 [10, 11, 12]) [0] [0, 0],
+       wireD toySeal toyPCodec (e2eD 1 [20, 21]) [5] [6, 7],
+       (wireD toySeal toyPCodec (e2eD 2 [30, 31, 32, 33]) [0] [0, 0]).dropLast]).delivered
+      = [bytesCode [10, 11, 12], bytesCode [20, 21], bytesCode [30, 31, 32, 33]] ∧
+    (rxRun (toyOpen toyPCodec e2eG) toyPCodec (fun _ w => some w) e2eIds bytesCode e2eCfg e2eS0
+      [(wireD toySeal toyPCodec (e2eD 0 [10, 11, 12]) [0] [0, 0]).set 60 1,
+       (wireD toySeal toyPCodec (e2eD 2 [30, 31, 32, 33]) [0] [0, 0]).dropLast]).delivered = [] := by
+  refine ⟨toySeal_len, fun n ct p h => toy_ideal toyPCodec e2eG n ct p h, ?_, ?_, ?_, ?_, e2e_reach, ?_, ?_, ?_⟩
+  · intro d hd; simp only [e2eG, List.mem_cons, List.mem_nil_iff, or_false] at hd
+    rcases hd with h | h | h <;> subst h <;> decide
+  · refine (bdLen_of_the_code e2eG).1 ?_
+    intro d hd; simp only [e2eG, List.mem_cons, List.mem_nil_iff, or_false] at hd
+    rcases hd with h | h | h <;> subst h <;> rfl
+  · intro d1 h1 d2 h2; simp only [e2eG, List.mem_cons, List.mem_nil_iff, or_false] at h1 h2
+    rcases h1 with h | h | h <;> rcases h2 with h' | h' | h' <;> subst h <;> subst h' <;> decide
+  · constructor <;> (intro d hd; simp only [e2eG, List.mem_cons, List.mem_nil_iff, or_false] at hd
+                     rcases hd with h | h | h <;> subst h <;> decide)
+  · intro d hd k hk; simp only [e2eG, List.mem_cons, List.mem_nil_iff, or_false] at hd
+    rcases hd with h | h | h <;> subst h
+    · rw [show route e2eCfg (e2eIds (e2eD 0 [10, 11, 12]).md) = some 0 by decide] at hk; cases hk; decide
+    · rw [show route e2eCfg (e2eIds (e2eD 1 [20, 21]).md) = some 1 by decide] at hk; cases hk; decide
+    · rw [show route e2eCfg (e2eIds (e2eD 2 [30, 31, 32, 33]).md) = some 2 by decide] at hk; cases hk; decide
+  · decide +kernel
   · decide +kernel
 
 end Mieru.C04
